@@ -48,10 +48,14 @@ type withLabels struct {
 	plain
 	labels []string
 	isNil  bool
+	zero   bool // hand back no stanza at all (legal: the recipient has nothing to add), labels as declared
 }
 
 func (w *withLabels) WrapWithLabels(fk []byte) ([]*age.Stanza, []string, error) {
 	s, err := w.plain.Wrap(fk)
+	if w.zero {
+		s = []*age.Stanza{}
+	}
 	if w.isNil {
 		return s, nil, err
 	}
@@ -82,6 +86,9 @@ type kind struct {
 	labels []string
 	fail   int // 0 no, 1 fail in Wrap, 2 fail in WrapWithLabels
 }
+
+// zero: the recipient returns no stanza at all.
+func (k kind) zero() bool { return strings.HasSuffix(k.name, "(no stanzas)") }
 
 func (k kind) set() string {
 	if k.fail != 0 {
@@ -120,10 +127,11 @@ func main() {
 			{"A", "set", []string{"A"}, 0}, {"a_", "set", []string{"a "}, 0}, {"aa", "set", []string{"aa"}, 0},
 			{"a,b(one label)", "set", []string{"a,b"}, 0}, {"emptystring", "set", []string{""}, 0}, {"a+empty", "set", []string{"a", ""}, 0},
 			{"aa(dup)", "set", []string{"a", "a"}, 0}, {"aba(dup)", "set", []string{"a", "b", "a"}, 0},
+			{"b(no stanzas)", "set", []string{"b"}, 0}, {"empty(no stanzas)", "set", []string{}, 0},
 			{"fail", "none", nil, 1}, {"failL", "set", []string{"a"}, 2}, {"zero-ScryptRecipient(wrap fails)", "real", nil, 3},
 		}
 		maxLen := c.Pick(4, 5)
-		c.Bound("every list of 1..%d recipients over %d label declarations (no WrapWithLabels method, nil, empty, {a}, {b}, {a,b} in both orders, {a,b,c} in 4 orders, case and whitespace variants, {a,a} and {a,b,a} with a repeated label (judged where the set and multiset readings agree), a label containing a comma, the empty-string label, failing recipients with and without labels incl. a zero-value ScryptRecipient), each wrapping through a real X25519 recipient", maxLen, len(kinds))
+		c.Bound("every list of 1..%d recipients over %d label declarations (no WrapWithLabels method, nil, empty, {a}, {b}, {a,b} in both orders, {a,b,c} in 4 orders, case and whitespace variants, {a,a} and {a,b,a} with a repeated label (judged where the set and multiset readings agree), recipients that return no stanza at all but declare {b} or {}, a label containing a comma, the empty-string label, failing recipients with and without labels incl. a zero-value ScryptRecipient), each wrapping through a real X25519 recipient", maxLen, len(kinds))
 		keyset := []*keys.Key{keys.X(0), keys.X(1), keys.X(2), keys.X(3), keys.X(4)}
 		var rec func(cur []int)
 		cnt := 0
@@ -154,7 +162,7 @@ func main() {
 							pp := p
 							rs = append(rs, &pp)
 						default:
-							rs = append(rs, &withLabels{plain: p, labels: k.labels, isNil: k.method == "nil"})
+							rs = append(rs, &withLabels{plain: p, labels: k.labels, isNil: k.method == "nil", zero: k.zero()})
 						}
 						if k.fail != 0 {
 							wantOK, wantOKSet = false, false
@@ -212,6 +220,9 @@ func main() {
 							wc.Write(pt)
 							wc.Close()
 							for pos := range cur {
+								if kinds[cur[pos]].zero() {
+									continue // contributed no stanza
+								}
 								res := lab.DecryptBytes(w.buf.Bytes(), false, keyset[pos].Id)
 								if !res.OK() || !bytes.Equal(res.Plain, pt) {
 									c.Fail("accepted-file-does-not-decrypt", id, fmt.Sprintf("recipient %d cannot decrypt: %v", pos, res.DecryptErr), det)
